@@ -84,7 +84,9 @@ Inductive clphase :=
 (* ---- partition reader goroutines (reader.run (the unexported type)) ---- *)
 Inductive fphase :=
 | FInit                      (* about to initialize: DialLeader *)
-| FOffsets                   (* connected: readOffsets + Seek *)
+| FLookup (j : nat)          (* DialLeader -> Dialer.LookupPartition: metadata connection open (helper j of [inners]
+                                reads the partitions on it), select { result | error | <-ctx.Done() } *)
+| FOffsets                   (* connected to the leader: readOffsets + Seek *)
 | FBackoff                   (* sleep(ctx, backoff(attempt)) at the head of the outer loop *)
 | FSendErr                   (* sendError(ctx, err) without a connection *)
 | FReadTop                   (* connected: sleep(ctx, backoff(errcount)) at the head of readLoop *)
@@ -147,7 +149,11 @@ Record fn := mkFn { n_gen : nat; n_kind : fnkind; n_acc : bool; n_dirty : bool; 
 
 (* ---- readLag ---- *)
 Inductive lagphase := LagOff | LagStart | LagWait (i : nat) | LagTick | LagExit.
-Inductive iphase := IDial | IConn | IDone.
+Inductive iphase :=
+| IDial | IConn               (* ReadLag's goroutine: dialing; connected, reading the offsets *)
+| ILookup                     (* LookupPartition's goroutine: Conn.ReadPartitions on the lookup connection (no deadline) *)
+| IOrphan                     (* ... whose function has returned (context ended first) and closed the connection under it *)
+| IDone.
 
 Record state := mkSt {
   cfg : config;
@@ -211,7 +217,7 @@ Inductive label :=
 (* Reader.Close, one statement per step *)
 | LCloseStep (k : nat)
 (* partition readers *)
-| LFDial (i : nat) (r : dialres) | LFOffsets (i : nat) (r : dialres)
+| LFDial (i : nat) (r : dialres) | LFLookup (i : nat) (r : dialres) | LFOffsets (i : nat) (r : dialres)
 | LFBackoffFire (i : nat) | LFSeeCancel (i : nat) | LFPushErr (i : nat)
 | LFFetch (i : nat) | LFResp (i : nat) (r : fresp) | LFPush (i : nat) | LFBatchEnd (i : nat) (reconnect : bool)
 (* Reader.run *)
@@ -227,7 +233,8 @@ Inductive label :=
 | LClBackoffFire (f : nat) | LClSeeStop (f : nat)
 | LUnCancel (f : nat) | LUnJoin (f : nat)
 (* readLag *)
-| LLagBegin | LLagGot | LLagTimeout | LLagTick | LLagStop | LInDial (i : nat) (ok : bool) | LInOffsets (i : nat).
+| LLagBegin | LLagGot | LLagTimeout | LLagTick | LLagStop | LInDial (i : nat) (ok : bool) | LInOffsets (i : nat)
+| LInExit (j : nat).            (* an orphaned lookup goroutine: its read fails on the closed connection, it ends *)
 
 (* ---- helpers ---- *)
 Fixpoint upd {A} (i : nat) (x : A) (l : list A) {struct l} : list A :=
@@ -474,9 +481,27 @@ Definition step (s : state) (l : label) : option state :=
     | None => None end
   (* ------------------------------------------------------------ partition readers *)
   | LFDial i r =>
+    (* d.DialContext inside LookupPartition: on success the lookup connection exists and the helper
+       goroutine is started on it *)
     match nth_error (fetchers s) i with
     | Some f => match f_ph f with
-                | FInit => Some (set_f i (match r with DOk => FOffsets | DFail => FBackoff | DFailReport => FSendErr end) f s)
+                | FInit =>
+                  Some (match r with
+                        | DOk => set_inners (inners s ++ [ILookup]) (set_f i (FLookup (length (inners s))) f s)
+                        | DFail => set_f i FBackoff f s
+                        | DFailReport => set_f i FSendErr f s
+                        end)
+                | _ => None end
+    | None => None end
+  | LFLookup i r =>
+    (* the helper delivered (leader found / error) through its buffered channel and returned;
+       LookupPartition returns: its deferred c.Close() closes the lookup connection; DOk includes the
+       dial of the leader connection *)
+    match nth_error (fetchers s) i with
+    | Some f => match f_ph f with
+                | FLookup j =>
+                  Some (set_inners (upd j IDone (inners s))
+                          (set_f i (match r with DOk => FOffsets | DFail => FBackoff | DFailReport => FSendErr end) f s))
                 | _ => None end
     | None => None end
   | LFOffsets i r =>
@@ -496,6 +521,10 @@ Definition step (s : state) (l : label) : option state :=
       if fcancelled s f then
         match f_ph f with
         | FBackoff => Some (set_f i FExit f s)
+        | FLookup j =>
+          (* <-ctx.Done() wins in LookupPartition: return ctx.Err(); the deferred c.Close() closes the lookup
+             connection under the helper, which is what lets it end (its read has no deadline) *)
+          Some (set_inners (upd j IOrphan (inners s)) (set_f i FBackoff f s))
         | FSendErr => Some (set_f i FBackoff f s)
         | FReadTop => Some (set_f i FExit f s)          (* conn.Close(); return *)
         | FSending _ => Some (set_f i FExit f s)        (* read returns context.Canceled: conn.Close(); return *)
@@ -729,6 +758,11 @@ Definition step (s : state) (l : label) : option state :=
     match nth_error (inners s) i with
     | Some IDial => Some (set_inners (upd i (if ok then IConn else IDone) (inners s)) s)
     | _ => None end
+  | LInExit j =>
+    match nth_error (inners s) j with
+    | Some IOrphan => Some (set_inners (upd j IDone (inners s)) s)
+    | _ => None
+    end
   | LInOffsets i =>
     match nth_error (inners s) i with
     | Some IConn => Some (ev (EReq AOffsets 0) (set_inners (upd i IDone (inners s)) s))
@@ -754,7 +788,7 @@ Definition is_race (s : state) (l : label) : bool :=
   | LFRecv c | LTReady c | LTResp c _ => call_ctx s c
   | LCReply c => call_ctx s c || stctx s
   | LCEnq c => call_ctx s c || stctx s
-  | LFDial i DOk | LFBackoffFire i | LFPushErr i | LFFetch i | LFPush i => f_cancelled s i
+  | LFDial i DOk | LFLookup i _ | LFBackoffFire i | LFPushErr i | LFFetch i | LFPush i => f_cancelled s i
   | LRNextGen | LRNextErr => stctx s
   | LGBackoffFire => cgdone s
   | LClTake i => fn_gen_done s i
@@ -773,7 +807,7 @@ Definition g_live (g : gphase) : nat := match g with GNone | GExited => 0 | _ =>
 Definition g_hasconn (g : gphase) : nat := match g with GJoin | GSync | GOfetch | GLeaveReq _ => 1 | _ => 0 end.
 Definition lag_live (l : lagphase) : nat := match l with LagOff | LagExit => 0 | _ => 1 end.
 Definition idone (i : iphase) : bool := match i with IDone => true | _ => false end.
-Definition iconn (i : iphase) : bool := match i with IConn => true | _ => false end.
+Definition iconn (i : iphase) : bool := match i with IConn | ILookup => true | _ => false end.
 Definition live (s : state) : nat :=
   count (fun f => negb (fdone f)) (fetchers s) + r_live (rph s) + g_live (gph s)
   + count (fun f => negb (nexit f)) (fns s) + lag_live (lag s) + count (fun i => negb (idone i)) (inners s).
@@ -882,7 +916,7 @@ Definition cfg_g (sync : bool) (qcap : nat) : config := mkCfg true sync false qc
 Definition close_all (k : nat) : list label := repeat (LCloseStep k) 6.
 (* regression schedules of the three former defects (fixed in /repo 43be141, 0aeb2fd, da142dd) *)
 Definition wit_fetch_buffered : list label :=
-  [LCall KFetch; LFLock 0; LFDial 0 DOk; LFOffsets 0 DOk; LFFetch 0; LFResp 0 (FData 2); LFPush 0; LFPush 0;
+  [LCall KFetch; LFLock 0; LFDial 0 DOk; LFLookup 0 DOk; LFOffsets 0 DOk; LFFetch 0; LFResp 0 (FData 2); LFPush 0; LFPush 0;
    LFRecv 0; LCloseCall; LCloseStep 0; LCloseStep 0; LCloseStep 0; LFSeeCancel 0] ++
   [LCloseStep 0; LCloseStep 0; LCloseStep 0; LCall KFetch; LFLock 1].
 (* group mode: CommitMessages after Close returned *)
